@@ -17,7 +17,7 @@ func init() {
 	register(&Property{
 		ID:      "C01",
 		NeedSSA: true,
-		Decided: "Narrow structural necessary conditions only: (tables) each entry of the encoding table, the compression codec table and the two level-encoding tables is the implementation whose identifying method/field equals its key, so the code stamped in a page header selects the same algorithm when read; (typepair) every Type implementation encodes with encoding.Encode<K>, decodes with encoding.Decode<K> and reports Kind() == K for one and the same K; (kinds) the dispatchers over the physical kind on the write and read side cover every kind or fail loudly; (wire) no call passes a struct field into the parameter named after a sibling field (e.g. repetition and definition level limits of a column buffer); (header) page header fields come from the matching accessors and sizes are measured at the right moment (C02.header); (sink) the destination writer is assigned and written only inside the offset-tracking wrapper, and every path of the writer's reset re-targets it through that wrapper, so a reused writer starts at offset 0; (fallback) the dictionary-to-PLAIN fallback never clears the dictionary that earlier pages refer to; (rows) values handed to WriteRowValues are aligned on rows (C11.rows). (lazybuffer) every store of a freshly made column buffer into a column writer is dominated by the nil edge of a test of that field.",
+		Decided: "Narrow structural necessary conditions only: (tables) each entry of the encoding table, the compression codec table and the two level-encoding tables is the implementation whose identifying method/field equals its key, so the code stamped in a page header selects the same algorithm when read; (typepair) every Type implementation encodes with encoding.Encode<K>, decodes with encoding.Decode<K> and reports Kind() == K for one and the same K; (kinds) the dispatchers over the physical kind on the write and read side cover every kind or fail loudly; (wire) no call passes a struct field into the parameter named after a sibling field (e.g. repetition and definition level limits of a column buffer); (header) page header fields come from the matching accessors and sizes are measured at the right moment (C02.header); (sink) the destination writer is assigned and written only inside the offset-tracking wrapper, and every path of the writer's reset re-targets it through that wrapper, so a reused writer starts at offset 0; (fallback) the dictionary-to-PLAIN fallback never clears the dictionary that earlier pages refer to; (rows) values handed to WriteRowValues are aligned on rows (C11.rows). (lazybuffer) every store of a freshly made column buffer into a column writer is dominated by the nil edge of a test of that field. (chunkbase) a loop that walks a sparse array in chunks (Slice(i, j) with a loop-carried i) and indexes the whole array inside the loop uses an index that depends on i (8 sibling dictionary insert loops).",
 		NotDecided: "equality of values, levels and nesting after a round trip; behaviour of encoders, compressors, page cutting arithmetic and row-group limits; null detection kernels (which rows of a batch are null) beyond their element width (C03.nullwidth).",
 		Assumptions: []string{"see DESIGN.md §4 C01: the property as a whole is outside static reach"},
 		Run:         runC01,
@@ -41,7 +41,7 @@ func init() {
 	register(&Property{
 		ID:      "C10",
 		NeedSSA: true,
-		Decided: "Narrow structural necessary conditions only: (swap) Swap of the nullable and repeated column-buffer wrappers exchanges every per-row array it keeps on every path (no early exit that swaps some arrays and not others), and Buffer/GenericBuffer swap all columns, not only the sorting columns; (direction) the descending wrapper compares (j, i), wraps exactly the columns declared descending, and the null ordering follows NullsFirst; (rowpos) the row comparator uses row positions as column indexes only when no leaf of the schema is repeated (the test is not nested under the sorting-column test); (metadata) recorded sorting columns are the declared ones (C05.sorting); (close) SortingWriter.Close propagates the errors of the run merge and the output writer (C14.errflow scope). (direction, cont.) the null ordering handed to a sorting column of a Buffer depends on both NullsFirst() and Descending(), because the descending wrapper inverts the whole comparison including the placement of nulls.",
+		Decided: "Narrow structural necessary conditions only: (swap) Swap of the nullable and repeated column-buffer wrappers exchanges every per-row array it keeps on every path (no early exit that swaps some arrays and not others), and Buffer/GenericBuffer swap all columns, not only the sorting columns; (direction) the descending wrapper compares (j, i), wraps exactly the columns declared descending, and the null ordering follows NullsFirst; (rowpos) the row comparator uses row positions as column indexes only when no leaf of the schema is repeated (the test is not nested under the sorting-column test); (metadata) recorded sorting columns are the declared ones (C05.sorting); (close) SortingWriter.Close propagates the errors of the run merge and the output writer (C14.errflow scope). (direction, cont.) the null ordering handed to a sorting column of a Buffer depends on both NullsFirst() and Descending(), because the descending wrapper inverts the whole comparison including the placement of nulls. (wraporder) the argument of CompareDescending never derives from CompareNullsFirst / CompareNullsLast (C09.wraporder).",
 		NotDecided: "that the result is an ordered permutation; offset bookkeeping of repeated columns when rows are reordered.",
 		Assumptions: []string{"see DESIGN.md §4 C10"},
 		Run:         runC10,
@@ -49,7 +49,7 @@ func init() {
 	register(&Property{
 		ID:      "C12",
 		NeedSSA: true,
-		Decided: "Narrow structural necessary conditions only: (polarity) the order-sensitive schema comparison recurses with the order-sensitive comparison and the order-insensitive one with itself; (insert) copyRows consults the schema comparison before it takes any fast path that bypasses conversion (RowWriterTo / RowReaderFrom), and inserts the conversion on the unequal edge; (adjacent) the choice of a sibling column to mirror for an added column compares repetition depth as well as the parent path; (errors) errors of Convert and of conversions are not dropped or swallowed; (convertvalue) ConvertValue of every physical type dispatches over every source kind or fails loudly; (marker) converted row groups never take chunk-level fast paths (C11.marker). (wrapper) every Page implementation that wraps another Page returns a value of its own type from Slice. (mergeconv) MergeRowGroups never returns a bare multi-row-group over converted inputs. (sortprefix) a loop that copies sorting columns one by one under a condition stops at the first column it rejects: the rejecting branch does not come back to the loop header, so the result is a prefix of the declared order.",
+		Decided: "Narrow structural necessary conditions only: (polarity) the order-sensitive schema comparison recurses with the order-sensitive comparison and the order-insensitive one with itself; (insert) copyRows consults the schema comparison before it takes any fast path that bypasses conversion (RowWriterTo / RowReaderFrom), and inserts the conversion on the unequal edge; (adjacent) the choice of a sibling column to mirror for an added column compares repetition depth as well as the parent path; (errors) errors of Convert and of conversions are not dropped or swallowed; (convertvalue) ConvertValue of every physical type dispatches over every source kind or fails loudly; (marker) converted row groups never take chunk-level fast paths (C11.marker). (wrapper) every Page implementation that wraps another Page returns a value of its own type from Slice. (mergeconv) MergeRowGroups never returns a bare multi-row-group over converted inputs. (sortprefix) a loop that copies sorting columns one by one under a condition stops at the first column it rejects: the rejecting branch does not come back to the loop header, so the result is a prefix of the declared order. (insert, cont.) the RowWriterTo fast path of copyRows is asserted on the very value the slow path reads rows from (the source after the conversion was inserted), not on the reader as it was passed in.",
 		NotDecided: "level remapping and value equality through a conversion; behaviour on incompatible targets beyond the presence of an error path.",
 		Assumptions: []string{"see DESIGN.md §4 C12"},
 		Run:         runC12,
@@ -124,6 +124,7 @@ func atoi(s string) int {
 }
 
 func runC01(c *Ctx) {
+	runChunkBaseRule(c, "C01.chunkbase", 6)
 	c01LazyBuffer(c)
 	p := c.P
 	runTableRule(c, "C01.tables", "encodings", "Encoding", 9)
@@ -373,6 +374,7 @@ func runC04(c *Ctx) {
 }
 
 func runC10(c *Ctx) {
+	c10WrapOrder(c)
 	p := c.P
 	pc := newPathCons(p)
 	rule := "C10.swap"
@@ -661,6 +663,53 @@ func runC12(c *Ctx) {
 				"the "+cc.Method.Name()+" shortcut is taken before source and target schemas were compared: rows are handed over verbatim although the destination has a different schema (columns crossed, or a panic in the writer)")
 			k++
 		})
+		// the source the fast path hands over is the source the slow path reads:
+		// the (possibly converted) reader, not the reader as it was passed in
+		var slowSrc ssa.Value
+		allCalls(fn, false, func(_ *ssa.Function, call ssa.CallInstruction) {
+			if cc := call.Common(); cc.IsInvoke() && cc.Method.Name() == "ReadRows" {
+				slowSrc = cc.Value
+			}
+		})
+		k = 0
+		allInstrs(fn, false, func(_ *ssa.Function, ins ssa.Instruction) {
+			ta, ok := ins.(*ssa.TypeAssert)
+			if !ok || slowSrc == nil {
+				return
+			}
+			iface, _ := ta.AssertedType.Underlying().(*types.Interface)
+			if iface == nil {
+				return
+			}
+			has := false
+			for i := 0; i < iface.NumMethods(); i++ {
+				if iface.Method(i).Name() == "WriteRowsTo" {
+					has = true
+				}
+			}
+			if !has || !types.Identical(ta.X.Type(), slowSrc.Type()) {
+				return
+			}
+			same := ta.X == slowSrc
+			if !same {
+				// both read the same variable cell: the assertion must not be
+				// taken before a store into the cell that can still happen
+				lx, ok1 := ta.X.(*ssa.UnOp)
+				ly, ok2 := slowSrc.(*ssa.UnOp)
+				if ok1 && ok2 && lx.X == ly.X {
+					same = true
+					if cell, isAlloc := lx.X.(*ssa.Alloc); isAlloc {
+						for _, r := range *cell.Referrers() {
+							if st, isSt := r.(*ssa.Store); isSt && st.Addr == ssa.Value(cell) && executesAfter(lx, st) {
+								same = false
+							}
+						}
+					}
+				}
+			}
+			c.Check(rule, "copyRows: the WriteRowsTo fast path hands over the reader the slow path would read#"+itoa(k), ta.Pos(), same, "the RowWriterTo assertion is made on "+describeValue(p, ta.X)+" while the rows are otherwise read from "+describeValue(p, slowSrc)+" (the source after a conversion was inserted): a source that can write itself hands over unconverted rows to a destination with another schema")
+			k++
+		})
 		conv := 0
 		allCalls(fn, false, func(_ *ssa.Function, call ssa.CallInstruction) {
 			if n := calleeName(call); n == "ConvertRowReader" || n == "Convert" {
@@ -669,7 +718,7 @@ func runC12(c *Ctx) {
 		})
 		c.Check(rule, "copyRows inserts a conversion when schemas differ", fn.Pos(), conv > 0, "no conversion is inserted any more")
 	}
-	c.Min(rule, 4)
+	c.Min(rule, 5)
 
 	// adjacent
 	rule = "C12.adjacent"
@@ -913,4 +962,93 @@ func c03Stride(c *Ctx) {
 		c.Check(rule, FuncKey(top)+" chooses the width of its scratch array from the column", top.Pos(), readsKind, FuncKey(top)+" hands a column buffer a scratch array of fixed-width integers without ever reading the physical kind of the column: when a tag gives the column another width (int(64) on an int16 field) the buffer reads the array with the wrong element size — neighbouring values glued together, and memory past the scratch")
 	}
 	c.Min(rule, 2)
+}
+
+// c10WrapOrder — where nulls go is declared independently of the direction: a
+// comparison built from a column's Compare is reversed first and given its
+// null placement second, so the null wrapper is the outermost one. Module-wide:
+// the argument of CompareDescending never derives from the result of
+// CompareNullsFirst / CompareNullsLast (reversing a null-aware comparison
+// inverts the placement of nulls as well).
+func c10WrapOrder(c *Ctx) {
+	rule := "C10.wraporder"
+	p := c.P
+	n := 0
+	for _, fn := range p.ModuleSSAFuncs() {
+		if fn.Origin() != nil || fn.Blocks == nil || !inModule(fn) {
+			continue
+		}
+		k := 0
+		allCalls(fn, false, func(_ *ssa.Function, call ssa.CallInstruction) {
+			if calleeName(call) != "CompareDescending" {
+				return
+			}
+			n++
+			k++
+			inner := ""
+			for _, o := range Origins(call.Common().Args[0], OriginOpts{}) {
+				if o.Kind == OrgCall {
+					if nm := calleeName(o.Call); nm == "CompareNullsFirst" || nm == "CompareNullsLast" {
+						inner = nm
+					}
+				}
+			}
+			c.Check(rule, FuncKey(fn)+" reverses the comparison before it places the nulls#"+itoa(k), call.Pos(), inner == "", FuncKey(fn)+" passes the result of "+inner+" to CompareDescending: the reversal also inverts where nulls are placed, so a descending nulls-first column sorts its nulls last, against the declared sorting column and the column buffers")
+		})
+	}
+	c.Min(rule, 1)
+}
+
+// c09NullCount — a value is null when its definition level is below the
+// maximum of its column, whatever lies in between (a null leaf inside a present
+// optional group has a level that is neither 0 nor the maximum). Every count
+// over definition levels (countLevelsEqual / countLevelsNotEqual on a value
+// read from a field or parameter named definitionLevels) compares with a
+// maximum definition level, never with a constant.
+func c09NullCount(c *Ctx) {
+	rule := "C09.nullcount"
+	p := c.P
+	n := 0
+	for _, fn := range p.ModuleSSAFuncs() {
+		if fn.Origin() != nil || fn.Blocks == nil || fnPkgPath(fn) != modPath {
+			continue
+		}
+		k := 0
+		allCalls(fn, false, func(_ *ssa.Function, call ssa.CallInstruction) {
+			nm := calleeName(call)
+			if nm != "countLevelsEqual" && nm != "countLevelsNotEqual" {
+				return
+			}
+			args := call.Common().Args
+			isDef := false
+			var look func(v ssa.Value, depth int)
+			look = func(v ssa.Value, depth int) {
+				for _, o := range Origins(v, OriginOpts{}) {
+					switch {
+					case o.Kind == OrgField && strings.Contains(strings.ToLower(o.Field.Name()), "definitionlevel"):
+						isDef = true
+					case o.Kind == OrgParam && strings.Contains(strings.ToLower(o.Val.Name()), "definitionlevel"):
+						isDef = true
+					case o.Kind == OrgCall && depth < 2:
+						// x.definitionLevels.Slice(), unsafecast of the same
+						cc := o.Call.Common()
+						if cc.IsInvoke() {
+							look(cc.Value, depth+1)
+						} else if len(cc.Args) > 0 {
+							look(cc.Args[0], depth+1)
+						}
+					}
+				}
+			}
+			look(args[0], 0)
+			if !isDef {
+				return
+			}
+			n++
+			k++
+			_, isConst := args[1].(*ssa.Const)
+			c.Check(rule, FuncKey(fn)+" counts nulls against the maximum definition level#"+itoa(k), call.Pos(), !isConst, FuncKey(fn)+" counts definition levels against a constant: nulls below a present optional group (a level between 0 and the maximum) are not counted, the key range of a sorted input misses its nulls and overlapping inputs are concatenated instead of merged")
+		})
+	}
+	c.Min(rule, 3)
 }
